@@ -126,6 +126,14 @@ def check_pair_kernel(ctx: Ctx, rules: Dict[str, str]):
         return k.undecided("pair-loops", L0, "two nested loops over annotator slots expected")
     Li = inner[0]
     Lj = [n for n in Li.body if isinstance(n, ast.For)][0]
+    if len(Li.body) == 2 and isinstance(Li.body[0], ast.If) and Li.body[1] is Lj:
+        return _pair_kernel_counting_shape(ctx, k, f, L0, Li, Lj, rows, p_arr, p_dmat, p_delta, n_name, u, res)
+    if Li.body != [Lj]:
+        return k.undecided("pair-loops", Li, "statements besides the inner pair loop: kernel shape not recognised (not a verdict)")
+    extra = [x for x in L0.body if x is not Li and not (isinstance(x, ast.Assign) and isinstance(x.targets[0], ast.Name) and norm(x.value) == f"{p_arr}[{u}]")
+             and not (isinstance(x, ast.AugAssign) and isinstance(x.op, ast.Div))]
+    if extra:
+        return k.undecided("pair-loops", extra[0], "statements besides the pair loops in the per-alignment body: kernel shape not recognised (not a verdict)")
     try:
         dom = pair_domain(Li, Lj, Lin.atom(n_name))
     except ZUnsupported as e:
@@ -195,6 +203,72 @@ def check_pair_kernel(ctx: Ctx, rules: Dict[str, str]):
             why = f"`{norm(d)}` is not a single division of each cell by n(n-1)/2 after the pair loops"
     k.check("normalisation", ok_norm, divs[0] if divs else None, "each unitary disorder is divided exactly once by C(n,2) = n(n-1)/2",
             f"normalisation is not a single division by n(n-1)/2: {why} (for 3 annotators n = C(n,2), so tests cannot see it)")
+    return True
+
+
+def _pair_kernel_counting_shape(ctx, k: "K", f, L0, Li, Lj, rows, p_arr, p_dmat, p_delta, n_name, u, res):
+    """alternative kernel shape: real-real pairs are visited one by one, pairs involving an empty unit are charged by a closed form
+       over e = number of empty slots.  The closed form must equal (C(n,2) - C(n-e,2)) * delta_empty."""
+    i, j = Li.target.id, Lj.target.id
+    try:
+        dom = pair_domain(Li, Lj, Lin.atom(n_name))
+    except ZUnsupported as e:
+        return k.undecided("pair-domain", Li, str(e))
+    k.check("pair-domain", dom == "pairs", Li, f"pair loops range over every unordered pair of the {n_name} slots",
+            f"pair loops enumerate `{dom}` instead of all unordered pairs of distinct annotators")
+
+    def is_empty_test(t: ast.AST, v: str, positive: bool) -> bool:
+        if not (isinstance(t, ast.Compare) and len(t.ops) == 1 and A_const(t.comparators[0]) == -1):
+            return False
+        okop = isinstance(t.ops[0], ast.Eq) if positive else isinstance(t.ops[0], ast.NotEq)
+        tl = norm(t.left)
+        return okop and any(tl in (f"{rv}[{v}, 3]", f"{rv}[{v}][3]") for rv in list(rows) + [f"{p_arr}[{u}]"]) or (okop and tl == f"{p_arr}[{u}, {v}, 3]")
+    skip = Li.body[0]
+    cnt = None
+    ok_skip = is_empty_test(skip.test, i, True) and len(skip.body) == 2 and isinstance(skip.body[0], ast.AugAssign) and isinstance(skip.body[0].op, ast.Add) \
+        and A_const(skip.body[0].value) == 1 and isinstance(skip.body[1], ast.Continue) and not skip.orelse
+    if ok_skip:
+        cnt = norm(skip.body[0].target)
+    init = [x for x in L0.body if isinstance(x, ast.Assign) and cnt and norm(x.targets[0]) == cnt and A_const(x.value) == 0 and L0.body.index(x) < L0.body.index(Li)]
+    k.check("empty-test", ok_skip and len(init) == 1, skip, "each empty slot (category field -1) is counted exactly once per unitary alignment and skipped",
+            "empty slots are not counted once each (counter reset per unitary alignment, test of field 3 against -1, continue)")
+    if not (ok_skip and len(init) == 1):
+        return
+    # inner body: d_mat only when slot j is real
+    body = Lj.body
+    add = None
+    if len(body) == 1 and isinstance(body[0], ast.If) and is_empty_test(body[0].test, j, False) and len(body[0].body) == 1 and not body[0].orelse:
+        add = body[0].body[0]
+    elif len(body) == 2 and isinstance(body[0], ast.If) and is_empty_test(body[0].test, j, True) and len(body[0].body) == 1 and isinstance(body[0].body[0], ast.Continue):
+        add = body[1]
+    okd = isinstance(add, ast.AugAssign) and isinstance(add.op, ast.Add) and norm(add.target) == f"{res}[{u}]" and isinstance(add.value, ast.Call) and \
+        norm(add.value.func) == p_dmat and sorted(norm(x) for x in add.value.args) in [sorted([f"{rv}[{i}]", f"{rv}[{j}]"]) for rv in list(rows) + [f"{p_arr}[{u}]"]]
+    k.check("real-cost", okd, add or Lj, "every pair of two real units contributes d_mat(row_i, row_j) once",
+            "pairs of real units do not each add d_mat of the two slots' rows")
+    # closed form for the pairs involving an empty unit
+    after = [x for x in L0.body[L0.body.index(Li) + 1:] if isinstance(x, ast.AugAssign) and isinstance(x.op, ast.Add) and norm(x.target) == f"{res}[{u}]"]
+    if len(after) != 1:
+        return k.undecided("empty-cost", Li, "closed-form charge for the pairs involving empty units not found after the pair loops")
+    try:
+        ex = Extractor({cnt: Rat.var("e"), n_name: Rat.var("n"), p_delta: Rat.var("Δ")})
+        got = ex.ev(after[0].value)
+        n_, e_ = Rat.var("n"), Rat.var("e")
+        want = (n_ * (n_ - Rat.const(1)) / Rat.const(2) - (n_ - e_) * (n_ - e_ - Rat.const(1)) / Rat.const(2)) * Rat.var("Δ")
+        k.check("empty-cost", got == want, after[0],
+                "pairs involving an empty unit are charged (C(n,2) - C(n-e,2)) * delta_empty = (e(n-e) + e(e-1)/2) * delta_empty in total",
+                f"with e empty slots the pairs involving an empty unit are charged {got}; the definition charges delta_empty for each of the "
+                f"C(n,2) - C(n-e,2) = e(n-e) + e(e-1)/2 such pairs, i.e. {want}: pairs of two empty units are "
+                f"{'not charged' if (want - got) == e_ * (e_ - Rat.const(1)) / Rat.const(2) * Rat.var('Δ') else 'mischarged'} "
+                f"(differs as soon as a unitary alignment has 2+ empty units, which needs 3+ annotators)")
+    except Unsupported as ue:
+        k.undecided("empty-cost", after[0], str(ue))
+    # normalisation (same rule as the plain shape)
+    divs = [n for n in walk_no_nested(f.node) if isinstance(n, ast.AugAssign) and isinstance(n.op, ast.Div)]
+    ok_norm = len(divs) == 1 and ((divs[0] in f.node.body and norm(divs[0].target) == res and f.node.body.index(divs[0]) > f.node.body.index(L0)) or
+                                  (divs[0] in L0.body and norm(divs[0].target) == f"{res}[{u}]" and L0.body.index(divs[0]) > L0.body.index(after[0]))) \
+        and c2n_ok(f, divs[0].value, n_name)
+    k.check("normalisation", ok_norm, divs[0] if divs else None, "each unitary disorder is divided exactly once by C(n,2) = n(n-1)/2",
+            "normalisation is not a single division by n(n-1)/2")
     return True
 
 
